@@ -4,6 +4,7 @@ CONSTANTS
   Ms <- L_M
   Ks <- L_K2
   Bs <- L_B3
+  Polys <- L_PX
   Fs <- L_F2
   Q0s <- L_Q3
   V0s <- L_V3
@@ -39,4 +40,5 @@ INVARIANT ImplicitIsEulerDamp
 INVARIANT RK4Taylor
 INVARIANT RK4ConstAcc
 INVARIANT DamperContracts
+INVARIANT PolyDampLaw
 CHECK_DEADLOCK FALSE
